@@ -133,7 +133,7 @@ CHECKS = {
             'reloadconfig the protocol view must equal a fresh start, untouched watchers keep their pids, '
             'numprocesses-only edits move only the difference (also when a worker was SIGKILLed just before the '
             'request), unchanged files cause no kernel activity; stream options, mixed-case names and env values '
-            'with $VAR references are in the edit alphabet. LIVE: reloadconfig on a real circusd started with --log-level / --log-output (unchanged file, then an edited and an added watcher). Programs that do not exist and their repair.',
+            'with $VAR references are in the edit alphabet. LIVE: reloadconfig on a real circusd started with --log-level / --log-output (unchanged file, then an edited and an added watcher). Programs that do not exist and their repair; hooks named by dotted path, the ignored-failure set compared with a fresh start; seed-independent chains in which only a hook line changes or options disappear one by one.',
             'What a file means is taken from get_config (C16 checks that against the documentation).'),
     'C13': ('REF+SIM', 'exploration',
             'runtime monitoring: Process.format_args vs an independent argv model on enumerated token sequences; '
